@@ -48,6 +48,7 @@ def plan(tier, seed):
         shards.append({"kind": "col6bytes"})
         shards.append({"kind": "col6families", "n": 30000})
         shards.append({"kind": "insitu", "n": 10})
+        shards.append({"kind": "optimized-interpreter"})
     else:
         for hi in range(16):
             for case in ("lower", "upper"):
@@ -59,13 +60,14 @@ def plan(tier, seed):
             shards.append({"kind": "col6families", "n": 0, "family": fam})
         for sub in range(4):
             shards.append({"kind": "insitu", "n": 25, "sub": sub})
+        shards.append({"kind": "optimized-interpreter"})
     return shards
 
 
 def floors(tier):
     return {
         "evaluations": 300000,
-        "strata": ["names", "col3", "col6", "insitu-tikz"],
+        "strata": ["names", "col3", "col6", "insitu-tikz", "optimized-interpreter"],
         "events": {"int2name": 300000, "hex2rgb": 60000, "hex2rgbstr": 60000, "hex2html": 60000},
         "distinct_nontrivial": 1000,
     }
@@ -209,12 +211,52 @@ def worker(ctx, shard):
         if not bad:
             ex = "#a1B" if kind == "col3" else "#7fC0de"
             ctx.sample({"code": ex, "hex2rgb": list(U.hex2rgb(ex)), "hex2rgbstr": U.hex2rgbstr(ex), "hex2html": U.hex2html(ex)})
+    elif kind == "optimized-interpreter":
+        _optimized(ctx)
     elif kind == "insitu":
         _insitu(ctx, mon, shard)
     for k, v in mon.calls.items():
         ctx.event(k, v)
     ctx.extra["out_of_domain_calls"] = mon.out_of_domain
     mon.uninstall()
+
+
+def _optimized(ctx):
+    """The same functions in a child interpreter started with -O (assert statements stripped): 3-digit codes and a seeded
+    sample of 6-digit codes; the child prints the raw results, the reference judges them here."""
+    import json
+    import subprocess
+
+    from vmon.core import PY, VERIF, worker_env
+
+    rng = ctx.rng("optimized")
+    codes = [p + a + b + c for p in ("", "#") for a in "0369cF" for b in "05aE" for c in "1b8D"]
+    codes += [rng.choice(["", "#"]) + "".join(rng.choice(N.HEXDIGITS) for _ in range(6)) for _ in range(1500)]
+    prog = ("import sys, json\nfrom labella.utils import hex2rgb, hex2rgbstr, hex2html, int2name\nout = []\n"
+            "for c in json.loads(sys.stdin.read()):\n    row = [c]\n    for f in (hex2rgb, hex2rgbstr, hex2html):\n"
+            "        try:\n            v = f(c)\n            row.append(list(v) if isinstance(v, tuple) else v)\n        except Exception as e:\n            row.append('EXC ' + type(e).__name__)\n"
+            "    out.append(row)\nprint(json.dumps({'assert_stripped': not __debug__, 'rows': out, 'names': [int2name(i) for i in (0, 25, 26, 701, 702)]}))\n")
+    p = subprocess.run([PY, "-O", "-c", prog], input=json.dumps(codes), capture_output=True, text=True, cwd=VERIF, env=worker_env(), timeout=600)
+    if p.returncode != 0:
+        ctx.judge("optimized-interpreter", INCONCLUSIVE, None, reason="child interpreter failed: %s" % p.stderr[-300:])
+        return
+    res = json.loads(p.stdout)
+    if not res["assert_stripped"]:
+        ctx.judge("optimized-interpreter", INCONCLUSIVE, None, reason="-O not in effect in the child")
+        return
+    bad = 0
+    for code, a, b, c in res["rows"]:
+        exp = N.ref_rgb(code)
+        got = (tuple(a) if isinstance(a, list) else a, N.parse_rgbstr(b), N.parse_html(c))
+        if got != (exp, exp, exp):
+            bad += 1
+            if bad <= 3:
+                ctx.judge("optimized-interpreter", VIOLATED, {"code": code}, finding={"hex2rgb": a, "hex2rgbstr": b, "hex2html": c, "expected_rgb": list(exp), "interpreter": "python -O"}, key="colour-mismatch-under-O")
+    if res["names"] != [N.ref_name(i) for i in (0, 25, 26, 701, 702)]:
+        ctx.judge("optimized-interpreter", VIOLATED, None, finding={"names": res["names"]}, key="int2name-mismatch-under-O")
+    if not bad:
+        ctx.bulk_held("optimized-interpreter", len(res["rows"]), nontrivial_distinct=len(res["rows"]))
+    ctx.event("optimized_interpreter_calls", 3 * len(res["rows"]))
 
 
 _DEFCOL = re.compile(r"\\definecolor\{(dotColor|labelBgColor|labelTextColor|linkColor|borderColor)([A-Za-z]*)\}\{HTML\}\{([^}]*)\}")
